@@ -20,7 +20,7 @@ git checkout -q -- . ; git clean -fdq -e seed_out
 cp $out/zz_seed_demo_${v}_test.go $pkg/
 echo "== demo on original (must pass)"; go test -vet=off -count=1 -run "^${tname}\$" ./$pkg/ 2>&1 | tail -2
 git apply $out/$v.diff || { echo "APPLY FAILED"; exit 2; }
-echo "== build with change"; go build ./... 2>&1 | tail -2
+echo "== build with change"; go build $(go list ./... | grep -v seed_out) 2>&1 | tail -2
 echo "== demo with change (must fail)"; go test -vet=off -count=1 -run "^${tname}\$" ./$pkg/ 2>&1 | tail -3
 rm -f $pkg/zz_seed_demo_${v}_test.go
 echo "== existing tests of $pkg with change (must pass)"; go test -vet=off -count=1 ./$pkg/ 2>&1 | tail -2
